@@ -2,6 +2,7 @@
 use crate::base::*;
 use crate::fw::*;
 use crate::gen::*;
+use crate::net::*;
 use crate::scn::*;
 use crate::world::*;
 use ggrs::InputStatus;
@@ -59,6 +60,31 @@ pub fn cases(ctx: &Ctx) -> Vec<WCase> {
         }
         s.settle_ms = 1500;
         out.push(wcase(format!("paused-{i}"), s));
+    }
+    // dropped before its first input arrives: every Input packet of the remote is lost from the start (acks, quality
+    // reports and keep-alives still flow until it dies or is dropped by the application), so the survivor has simulated
+    // up to a window of frames with predictions only and the dropped player's last frame is "none"
+    for i in 0..ctx.n(2000, 100_000) {
+        let mut rr = r.fork(0x4000_0000 + i as u64);
+        let mut s = gen_death2(&mut rr, 500);
+        let mut l = s.link.clone();
+        l.outages.push(Outage { from_ms: 0, to_ms: 1_000_000, kinds: 1 << K_INPUT });
+        s.link_overrides.push((peer_addr(1), peer_addr(0), l));
+        let api = i % 2 == 1;
+        if api {
+            s.kill = None;
+            s.notify_ms = 20_000;
+            s.timeout_ms = 30_000;
+            let h = s.peers[1][0];
+            let at = rr.range(1500, 3000);
+            s.actions.push(Action { node: 0, when: Trigger::AtMs(at), act: Act::Disconnect { h } });
+            s.actions.push(Action { node: 0, when: Trigger::AtMs(at + rr.range(1, 400)), act: Act::Disconnect { h } });
+        }
+        if rr.chance(0.5) {
+            s.specs.push(SpecCfg::new(0));
+        }
+        s.settle_ms = 1500;
+        out.push(wcase(format!("{}-{i}", if api { "api-noinput" } else { "kill-noinput" }), s));
     }
     out
 }
@@ -258,7 +284,7 @@ pub fn check(ctx: &Ctx) -> i32 {
     let res = par_run(ctx, &cs, &|c: &WCase| c.id.clone(), &run_case);
     let meta = Meta {
         level: "fault_enumeration",
-        rule: "two-peer sessions (1+1, 2+2, 2+1, 1+2 players), rollback and lockstep (windows 0,1,2,3,8,12), delays 0..=3, sparse on/off, both predictors, notify delay {100,300,500,1000} ms, timeout = notify + {0,200,1500} ms, lossy links; the remote is killed at a random moment 1.5-3 s after start (after all sessions are Running) and each of its in-flight packets is dropped with probability {0,0.5,1}; with and without a spectator; plus explicit disconnect_player calls (with a repeated call) at random moments, the caller polling 1/2/4/8 times per frame; plus a paused-game family in which the survivor only polls (no advance_frame) from up to 150 ms before the death until after the timeout and then plays on. With T_rx = time the survivor's socket last handed over a packet of the dead peer: NetworkInterrupted must fall in [T_rx+notify, +slack] with field timeout-notify, Disconnected in [T_rx+timeout, +slack] exactly once and nothing after it for that address (slack = one tick period + tick jitter + 2 ms); the survivor then keeps advancing (at least a third of its ticks over the next second: sparse saving with window 1 legitimately advances every other tick); in its final timeline the dropped players have the real inputs up to the last received frame and (default, Disconnected) afterwards, including frames simulated earlier with predictions; spectators agree with the host's final timeline. Non-trivial: a player is disconnected at the end and a corrective rollback was needed, or the survivor stalled, or lockstep. Distinct: configuration + trace hash.".into(),
+        rule: "two-peer sessions (1+1, 2+2, 2+1, 1+2 players), rollback and lockstep (windows 0,1,2,3,8,12), delays 0..=3, sparse on/off, both predictors, notify delay {100,300,500,1000} ms, timeout = notify + {0,200,1500} ms, lossy links; the remote is killed at a random moment 1.5-3 s after start (after all sessions are Running) and each of its in-flight packets is dropped with probability {0,0.5,1}; with and without a spectator; plus explicit disconnect_player calls (with a repeated call) at random moments, the caller polling 1/2/4/8 times per frame; plus a paused-game family in which the survivor only polls (no advance_frame) from up to 150 ms before the death until after the timeout and then plays on; plus a family in which every Input packet of the remote is lost from the start, so that it is dropped (by timeout or by the application) before its first input ever arrived. With T_rx = time the survivor's socket last handed over a packet of the dead peer: NetworkInterrupted must fall in [T_rx+notify, +slack] with field timeout-notify, Disconnected in [T_rx+timeout, +slack] exactly once and nothing after it for that address (slack = one tick period + tick jitter + 2 ms); the survivor then keeps advancing (at least a third of its ticks over the next second: sparse saving with window 1 legitimately advances every other tick); in its final timeline the dropped players have the real inputs up to the last received frame and (default, Disconnected) afterwards, including frames simulated earlier with predictions; spectators agree with the host's final timeline. Non-trivial: a player is disconnected at the end and a corrective rollback was needed, or the survivor stalled, or lockstep. Distinct: configuration + trace hash.".into(),
         assumptions: std_assumptions(),
         floor_nontrivial: if ctx.quick() { 300 } else { 8000 },
         exhaustive: None,
